@@ -241,6 +241,9 @@ def run(tier):
         for tail in TAILS:
             cases.append(((a,), tail, tier, a not in LONG or tier == "thorough"))
     cases.append((("PA", "LONGSK", "CFG"), b"", tier, False))
+    # a sleeping node with two withheld replies, released by the next wake-up (order of the burst)
+    cases.append((("PA", "CA0", "SAe", "PSA", "RAT", "CFG", "TIMU", "PSA"), b"", "burst", False))
+    cases.append((("PA", "CA0", "SAe", "PSA", "RAT", "CFG", "PSA", "CFG"), b"", tier, False))
     cases.append((("NOISEPA", "LONGSK"), b"", tier, False))
     names = [n for n in names if n not in LONG]
     for a, b in itertools.product(names, repeat=2):
